@@ -36,6 +36,14 @@ const EDGE_NUMBERS: &[&str] = &[
     "-9223372036854775808", "-1", "0", "1", "9223372036854775807", "18446744073709551615", "1e308", "-0.5",
 ];
 
+/// further numeric edges (every spelling of zero, the widths at which counters wrap, the
+/// edge of exactly representable integers): one edge argument in four comes from here
+const EDGE_MORE: &[&str] = &[
+    "-0", "-0.0", "0.0", "0e0", "-0e0", "127", "128", "255", "256", "32767", "32768", "65535", "65536", "2147483647", "2147483648",
+    "-2147483649", "4294967295", "4294967296", "9007199254740992", "9007199254740993", "4503599627370496.0", "1e15", "1e16",
+    "1e400", "-1e400", "1e-400", "5e-324", "0.1", "-1.5", "9223372036854775808", "-9223372036854775809", "18446744073709551616",
+];
+
 const SMALL_ARGS: &[&str] = &["0", "1", "2", "3", "10", "100", "-1", "1.5", "null", "\"a\"", "[1, 2]", ".arr"];
 
 /// functions whose cost is driven by a numeric argument: literals stay small (resource
@@ -155,7 +163,8 @@ fn gen_illtyped_expr(rng: &mut Rng, depth: usize) -> String {
     let edges_only = rng.chance(1, 3);
     for _ in 0..n {
         if edges_only && !(amplifier(name) || amplifier(f.name)) {
-            args.push((*rng.pick(EDGE_NUMBERS)).to_string());
+            let pool = if rng.chance(1, 4) { EDGE_MORE } else { EDGE_NUMBERS };
+            args.push((*rng.pick(pool)).to_string());
             continue;
         }
         if amplifier(name) || amplifier(f.name) {
